@@ -164,40 +164,40 @@ edge props → `metadata.write` (**commit: after every array, before validation*
 clean-up `delete_geff` **inside the `except ValueError` handler** → `ValueError` -/
 theorem order_write_arrays :
     Gen.WriteOrder.translationOk = true ∧
-    names writeArrays = ["call:check_for_geff", "call:delete_geff", "raise:FileExistsError",
+    names (core writeArrays) = ["call:check_for_geff", "call:delete_geff", "raise:FileExistsError",
       "call:write_id_arrays", "call:write_props_arrays", "call:write_props_arrays", "call:write",
       "call:validate_structure", "call:delete_geff", "raise:ValueError"] ∧
-    guardShape writeArrays 0 "geff_store" = true ∧
-    unconditional writeArrays 3 = true ∧
-    detailHas writeArrays 4 "_path.NODES" = true ∧ detailHas writeArrays 5 "_path.EDGES" = true ∧
-    unconditional writeArrays 6 = true ∧ detailHas writeArrays 6 "on=metadata" = true ∧
-    inBlock writeArrays 7 "if structure_validation" = true ∧ inBlock writeArrays 7 "try" = true ∧
-    inBlock writeArrays 8 "except ValueError" = true ∧ inBlock writeArrays 9 "except ValueError" = true := by
+    guardShape (core writeArrays) 0 "geff_store" = true ∧
+    unconditional (core writeArrays) 3 = true ∧
+    detailHas (core writeArrays) 4 "_path.NODES" = true ∧ detailHas (core writeArrays) 5 "_path.EDGES" = true ∧
+    unconditional (core writeArrays) 6 = true ∧ detailHas (core writeArrays) 6 "on=metadata" = true ∧
+    inBlock (core writeArrays) 7 "if structure_validation" = true ∧ inBlock (core writeArrays) 7 "try" = true ∧
+    inBlock (core writeArrays) 8 "except ValueError" = true ∧ inBlock (core writeArrays) 9 "except ValueError" = true := by
   decide +kernel
 
 /-- `delete_geff`: open, `del nodes`, `del edges` unconditionally and in this order; only then the
 root (`shutil.rmtree`) or the `geff` attribute -/
 theorem order_delete_geff :
-    names deleteGeff = ["call:setup_zarr_group", "del:root[_path.NODES]", "del:root[_path.EDGES]",
+    names (core deleteGeff) = ["call:setup_zarr_group", "del:root[_path.NODES]", "del:root[_path.EDGES]",
       "call:rmtree", "call:rmtree", "del:root.attrs['geff']", "del:root.attrs['geff']"] ∧
-    unconditional deleteGeff 0 = true ∧ unconditional deleteGeff 1 = true ∧ unconditional deleteGeff 2 = true ∧
-    inBlock deleteGeff 3 "if len(list(root.keys())) == 0" = true ∧
-    inBlock deleteGeff 5 "except AttributeError" = true ∧
-    inBlock deleteGeff 6 "else len(list(root.keys())) == 0" = true := by
+    unconditional (core deleteGeff) 0 = true ∧ unconditional (core deleteGeff) 1 = true ∧ unconditional (core deleteGeff) 2 = true ∧
+    inBlock (core deleteGeff) 3 "if len(list(root.keys())) == 0" = true ∧
+    inBlock (core deleteGeff) 5 "except AttributeError" = true ∧
+    inBlock (core deleteGeff) 6 "else len(list(root.keys())) == 0" = true := by
   decide +kernel
 
 /-- ids before properties; per property: group, values, missing, data; the metadata write opens the
 root with format detection and sets only the `geff` attribute -/
 theorem order_array_writers :
-    names writeIdArrays = ["raise:TypeError", "raise:TypeError", "call:setup_zarr_group",
+    names (core writeIdArrays) = ["raise:TypeError", "raise:TypeError", "call:setup_zarr_group",
       "set:geff_root[_path.NODE_IDS]", "set:geff_root[_path.EDGE_IDS]"] ∧
     names (only ["call:setup_zarr_group", "call:require_group", "call:create_group",
                  "set:prop_group[_path.VALUES]", "set:prop_group[_path.MISSING]", "set:prop_group[_path.DATA]"]
-            writePropsArrays) =
+            (core writePropsArrays)) =
       ["call:setup_zarr_group", "call:require_group", "call:create_group", "set:prop_group[_path.VALUES]",
        "set:prop_group[_path.MISSING]", "set:prop_group[_path.DATA]"] ∧
-    names metadataWrite = ["raise:TypeError", "call:open_group", "set:group.attrs['geff']"] ∧
-    detailHas metadataWrite 1 "mode=default" = true := by
+    names (core metadataWrite) = ["raise:TypeError", "call:open_group", "set:group.attrs['geff']"] ∧
+    detailHas (core metadataWrite) 1 "mode=default" = true := by
   decide +kernel
 end order
 
